@@ -262,6 +262,15 @@ impl Monitor for C16 {
             if id != &p.info.pool_identifier || !(id.starts_with("o.") || id.starts_with("p.")) {
                 rep.failed("unique", None, format!("pool stored under {id} reports identifier {}", p.info.pool_identifier), witness(json!({"pool": id})));
             }
+            // the i-th asset is the i-th denom, to which the i-th decimals entry refers: that is
+            // how the pool's assets carry their decimals
+            let order: Vec<&String> = p.info.assets.iter().map(|c| &c.denom).collect();
+            if order != p.info.asset_denoms.iter().collect::<Vec<_>>() {
+                rep.failed("asset_order", None, format!("pool {id}: assets are listed as {:?} but the creation-time denoms/decimals are {:?}/{:?}: every asset now carries another asset's decimals", order, p.info.asset_denoms, p.info.asset_decimals),
+                    witness(json!({"pool": id, "assets": order, "asset_denoms": p.info.asset_denoms, "asset_decimals": p.info.asset_decimals})));
+            } else {
+                rep.held("asset_order", hash_of(&(id, s.op.kind())), || json!({"pool": id, "assets_in_creation_order": order}));
+            }
             let cur = (p.info.asset_denoms.clone(), p.info.asset_decimals.clone(), p.info.pool_type.clone(), p.info.pool_fees.clone(), p.info.lp_denom.clone());
             match self.first_seen.get(id) {
                 None => {
